@@ -58,15 +58,31 @@ def perform(a: Dict[str, Any], w, rng, rec, tg) -> List[Dict[str, Any]]:
     entry = a.get("entry", "ce")
     out: List[Dict[str, Any]] = []
     if kind == "seq":
+        from . import actions
+        from . import world as W2
+        last = None
         for sub in a["steps"]:
-            from . import actions
+            raised = None
+            before = W2.snapshot(w, check=False)
             try:
                 out += actions.perform(sub, w, rng, rec) or []
             except Exception as ex:
-                if not sub.get("may_raise"):
+                raised = ex
+                if not (sub.get("may_raise") or sub.get("must_raise")):
                     raise
-                out.append({"prop": sub.get("raise_prop", "C17"), "clause": "step-raised-as-specified", "ok": True,
-                            "detail": f"{type(ex).__name__}", "method": "seq"})
+            if sub.get("must_raise"):
+                prop = sub.get("raise_prop", "C05")
+                out.append({"prop": prop, "clause": sub.get("raise_clause", "use-of-a-destroyed-subsystem-fails-with-an-error"),
+                            "ok": raised is not None, "detail": "" if raised is not None else "the call returned normally",
+                            "method": "seq:" + sub["kind"]})
+                after = W2.snapshot(w, check=False)
+                same = len(before.blocks) == len(after.blocks) and all(
+                    b.members == c.members and b.level == c.level and (
+                        (not hasattr(b.array, "shape") and b.array == c.array) or
+                        (hasattr(b.array, "shape") and hasattr(c.array, "shape") and b.array.shape == c.array.shape and (b.array == c.array).all()))
+                    for b, c in zip(before.blocks, after.blocks))
+                out.append({"prop": prop, "clause": "rejected-use-leaves-every-block-unchanged", "ok": bool(same),
+                            "detail": "" if same else "blocks differ after the rejected call", "method": "seq:" + sub["kind"]})
         return out
     if kind == "trace_out":
         if entry == "self":
